@@ -128,6 +128,16 @@ def runner(rep, tier, seed, replay):
         if r.violation:
             raise ToolError("Pipeline model violates a descriptor invariant (%s):\n%s" % (cfg, r.violation[:2500]))
         rep.add_tlc(r)
+    # a captured stage that redirects its stdout itself: with the capture pipes closed only where they are dup2()ed (core.rs as
+    # pinned) the program starts with both ends of the stdout capture pipe open - negative control
+    rr = run_tlc("MCPipeline", "MCPipeline_capR", timeout=3000)
+    if rr.violation:
+        raise ToolError("Pipeline model (redirected captured stage) violates a descriptor invariant:\n" + rr.violation[:2000])
+    rep.add_tlc(rr)
+    rl = run_tlc("MCPipeline", "MCPipeline_capR_legacy", coverage=False)
+    rep.add_tlc(rl)
+    if not rl.violation or "ExecFds" not in rl.violation:
+        raise ToolError("negative control failed: closing a capture pipe only where it is dup2()ed satisfies ExecFds")
     nsess = 14 if tier == "quick" else 300
     scripts = [gen_session(random.Random(rnd.randrange(1 << 30)), rnd.randint(1, 30)) for _ in range(nsess)]
     # fault enumeration: every RLIMIT_NOFILE value before a pipeline
